@@ -418,6 +418,14 @@ class ParserAI:
             ts = [last_seg(strip_generics(g)) for g in gargs if "Terminal" in g]
             if len(ts) >= 2 and k == ts[0]:
                 return [ret(None, nk=ts[1])]
+            # the model "does nothing unless the next terminal is the glued kind" is checked against the body where it
+            # matters: if the body can pop the window (or panic) on this kind, so does the call
+            g_ = self.F.fns.get(path)
+            if g_ is not None and g_.body is not None and self.eof_pop_panics:
+                gen = g_.d.get("generics") or []
+                sub = tuple(sorted(zip(gen, gargs))) if gen and len(gen) == len(gargs) else ()
+                if ("!", False) in self.outcomes(path, k, sub, ()):
+                    return ["PANIC", ret(None)]
             return [ret(None)]
         # --- pure helpers on abstract values
         if name in ("eq", "ne") and len(argavs) == 2 and ("PartialEq" in path):
